@@ -451,17 +451,23 @@ impl Shape {
     /// are used at the start and come back after 65 536 searches. Every hit of every search must share a gram.
     fn session_case(&self, cx: &mut Cx, lang: &'static str) {
         let alpha = gen::lower_alphabet(lang);
-        let mut words: Vec<String> = ["ant", "ent", "zebra", "the", "form", "cat", "dig", "wifi", "metal"].iter().map(|w| w.to_string()).collect();
+        // records 0 and 1 are touched by the first searches only; their fuzzy partners (another first vowel, the first
+        // two letters swapped: matching spellings that share no gram with them) come exactly 65 536 searches later
+        let leads: [(&str, &str); 2] = *cx.rng.pick(&[[("ant", "ent"), ("the", "hte")], [("end", "and"), ("form", "ofrm")], [("owl", "awl"), ("her", "ehr")]]);
+        let mut words: Vec<String> = vec![leads[0].0.to_string(), leads[1].0.to_string()];
+        for w in ["zebra", "cat", "dig", "wifi", "metal", "yellow"].iter() {
+            words.push(w.to_string());
+        }
         for _ in 0..3 {
             words.push(gen::rand_word(&mut cx.rng, &alpha, 3, 4));
         }
-        let n = cx.rng.range(2, words.len());
-        let recs: Vec<Rec> = (0..n).map(|i| (i, if cx.rng.chance(1, 3) { format!("{} {}", words[i], cx.rng.pick(&words)) } else { words[i].clone() }, i)).collect();
+        let n = cx.rng.range(3, words.len());
+        let recs: Vec<Rec> = (0..n).map(|i| (i, if i >= 2 && cx.rng.chance(1, 3) { format!("{} {}", words[i], words[cx.rng.range(2, words.len() - 1)]) } else { words[i].clone() }, i)).collect();
         let st = St::build_sentinel(lang, &recs, *cx.rng.pick(&[1usize, 3, 10]));
         let rgrams: Vec<BTreeSet<oracle::Gram>> = recs.iter().map(|r| oracle::grams_of(&st.tok_record(&r.1))).collect();
         let vowels = if lang == "ru" { cv("аеиоу") } else { cv("aeiou") };
-        let mut queries: Vec<String> = vec![];
-        for w in &words {
+        let mut queries: Vec<String> = vec![leads[0].0.to_string(), leads[1].0.to_string(), leads[0].1.to_string(), leads[1].1.to_string()];
+        for w in &words[2..] {
             let c = cv(w);
             queries.push(w.clone());
             let mut t = c.clone();
@@ -481,19 +487,37 @@ impl Shape {
                 rgrams.iter().map(|g| !g.is_disjoint(&qg)).collect()
             })
             .collect();
-        let lead = 6usize;
-        let total = 65_560 + lead;
+        // the searches in between must leave records 0 and 1 alone
+        let between: Vec<usize> = (4..queries.len()).filter(|&qi| !shares[qi][0] && !shares[qi][1]).collect();
+        if between.is_empty() {
+            cx.count("session cases without usable in-between queries");
+            return;
+        }
+        let first = cx.rng.range(0, 3);
+        let total = 65_536 + first + 8;
         let mut judged = 0u64;
         for k in 0..total {
-            let in_lead = k < lead || k >= 65_530;
-            let qi = if in_lead { k % queries.len() } else { lead + (k * 5 + k / 31) % (queries.len() - lead) };
-            if k % 8192 == 0 || in_lead {
+            // searches `first` and `first + 1` touch records 0 and 1; searches `first + 65536` and `first + 65537` are their partners
+            let (qi, special) = if k == first {
+                (0, true)
+            } else if k == first + 1 {
+                (1, true)
+            } else if k == first + 65_536 {
+                (2, true)
+            } else if k == first + 65_537 {
+                (3, true)
+            } else {
+                (between[(k * 5 + k / 31) % between.len()], false)
+            };
+            if k % 8192 == 0 || special {
                 cx.ctx(format!("C05 session lang={} records={:?} search #{} q={:?}", lang, recs, k + 1, queries[qi]));
             }
             for h in st.search(&queries[qi]) {
                 judged += 1;
                 if !shares[qi][h.0] {
-                    cx.fail("unrelated-hit", json!({"lang": lang, "records": recs, "limit": st.store.limit, "history": format!("search #{} on this store; the queries {:?} were used by the first {} searches and again from search #65531 on, the rest cycled in between", k + 1, &queries[..lead], lead), "query": queries[qi], "hit": h}));
+                    cx.fail("unrelated-hit", json!({"lang": lang, "records": recs, "limit": st.store.limit,
+                        "history": format!("search #{} on this store: {:?} and {:?} were searched as #{} and #{}, then only queries sharing no gram with the first two records, then {:?} and {:?} exactly 65 536 searches after them", k + 1, queries[0], queries[1], first + 1, first + 2, queries[2], queries[3]),
+                        "query": queries[qi], "hit": h}));
                     return;
                 }
             }
